@@ -137,6 +137,77 @@ func (x *Exec) smtCall(fn *ssa.Function, kind string, args []Value) Value {
 	}
 	var slots []slot
 	var arrSlots [][2]int
+	// an uninterpreted function applied to byte strings of constant length is taken as a function of
+	// the packed octets, one function symbol per length profile (no arrays in the query)
+	if kind == "opaque" {
+		allConst := false
+		suffix := ""
+		for i := 0; i < sig.Params().Len(); i++ {
+			pt := sig.Params().At(i).Type()
+			if _, ok := pt.Underlying().(*types.Slice); ok || isString(pt) {
+				sv, isS := args[i].(SliceV)
+				if !isS {
+					allConst = false
+					break
+				}
+				n, c := concreteLen(sv)
+				if !c || n > 512 {
+					allConst = false
+					break
+				}
+				allConst = true
+				suffix += fmt.Sprintf("!%d", n)
+			}
+		}
+		if allConst {
+			name += suffix
+			for i := 0; i < sig.Params().Len(); i++ {
+				pt := sig.Params().At(i).Type()
+				if _, ok := pt.Underlying().(*types.Slice); ok || isString(pt) {
+					sv := args[i].(SliceV)
+					n, _ := concreteLen(sv)
+					if n == 0 {
+						continue
+					}
+					var packed *Term
+					for j := 0; j < n; j++ {
+						b := x.byteAt(sv, bv64(int64(j)))
+						if packed == nil {
+							packed = b
+						} else {
+							packed = Concat(packed, b)
+						}
+					}
+					actual = append(actual, packed)
+					sorts = append(sorts, BV(packed.S.W))
+					pnames = append(pnames, fmt.Sprintf("p%d", i))
+					continue
+				}
+				if sc, ok := scalarSort(pt); ok && sc.K == SBool {
+					actual = append(actual, term(args[i]))
+					sorts = append(sorts, BoolSort)
+				} else {
+					actual = append(actual, x.packBV(args[i]))
+					sorts = append(sorts, BV(packWidth(pt)))
+				}
+				pnames = append(pnames, fmt.Sprintf("p%d", i))
+			}
+			var ret Sort
+			if sc, ok := scalarSort(rt); ok && sc.K == SBool {
+				ret = BoolSort
+			} else {
+				ret = BV(packWidth(rt))
+			}
+			if _, ok := TB.funcs[name]; !ok {
+				DeclareFunc(&FuncDecl{Name: name, Params: sorts, PNames: pnames, Ret: ret})
+			}
+			app := App(name, ret, actual...)
+			if ret.K == SBool {
+				return Scalar{app}
+			}
+			return x.unpackBV(app, rt)
+		}
+	}
 	for i := 0; i < sig.Params().Len(); i++ {
 		pt := sig.Params().At(i).Type()
 		pn := fmt.Sprintf("p%d", i)
@@ -182,6 +253,8 @@ func (x *Exec) smtCall(fn *ssa.Function, kind string, args []Value) Value {
 		if kind == "smtfun" {
 			fd.Lazy = func(fd *FuncDecl) {
 				// symbolic execution of the body with parameters as variables
+				savedCur := curExec
+				defer func() { curExec = savedCur }()
 				sub := NewExec(x.P)
 				sub.dry = 1
 				sub.unrollLimit = 600
